@@ -8,7 +8,7 @@ import (
 )
 
 // analyseDecodeArg walks the string handed to the base32 decoder back to the parameter.
-func analyseDecodeArg(a *Term, param string) (upper, trim, pad bool, why string) {
+func analyseDecodeArg(tb *TB, a *Term, param string) (upper, trim, pad bool, why string) {
 	var padInner *Term
 	cur := a
 	for i := 0; i < 12; i++ {
@@ -20,6 +20,11 @@ func analyseDecodeArg(a *Term, param string) (upper, trim, pad bool, why string)
 			return upper, trim, pad, ""
 		case cur.Op == "call" && cur.Sym == "strings.ToUpper" && len(cur.Args) == 1:
 			upper = true
+			tb.note("unicode-upper")
+			cur = cur.Args[0]
+		case cur.Op == "call" && len(cur.Args) == 1 && isASCIIUpper(tb, cur):
+			upper = true
+			tb.note("ascii-upper")
 			cur = cur.Args[0]
 		case cur.Op == "call" && cur.Sym == "strings.TrimSpace" && len(cur.Args) == 1:
 			trim = true
@@ -176,6 +181,147 @@ func evalSmall(t *Term, sym string, v int64) (int64, bool) {
 	return 0, false
 }
 
+// isASCIIUpper: t is a call of a module function g(s) = strings.Map(h, s) where the capture-free h maps
+// a..z to A..Z and every other code point to itself; decided by compiling h's decision paths and folding
+// them for every code point 0..0x10FFFF.
+func isASCIIUpper(tb *TB, t *Term) bool {
+	cl, ok := t.Val.(*ssa.Call)
+	if !ok || cl.Call.StaticCallee() == nil || !tb.W.InModule(cl.Call.StaticCallee()) {
+		return false
+	}
+	g := cl.Call.StaticCallee()
+	if len(g.Params) != 1 || g.Blocks == nil {
+		return false
+	}
+	rs := tb.Results(g, nil, nil, 0)
+	if len(rs) != 1 {
+		return false
+	}
+	r := rs[0]
+	if r.Op != "call" || r.Sym != "strings.Map" || len(r.Args) != 2 || r.Args[1].String() != tb.Of(g.Params[0]).String() {
+		return false
+	}
+	var h *ssa.Function
+	switch v := r.Args[0].Val.(type) {
+	case *ssa.Function:
+		h = v
+	case *ssa.MakeClosure:
+		if len(v.Bindings) == 0 {
+			h, _ = v.Fn.(*ssa.Function)
+		}
+	}
+	if h == nil || len(h.Params) != 1 || len(h.FreeVars) != 0 || h.Blocks == nil {
+		return false
+	}
+	paths, err := EnumPaths(h, 64)
+	if err != nil || len(paths) == 0 {
+		return false
+	}
+	sym := tb.Of(h.Params[0]).String()
+	type cp struct {
+		conds []func(int64) int64
+		taken []bool
+		res   func(int64) int64
+	}
+	var cps []cp
+	for _, p := range paths {
+		if p.Ret == nil {
+			return false
+		}
+		var x cp
+		for _, pc := range p.Conds {
+			f, ok := compileSmall(tb.Of(pc.Cond), sym)
+			if !ok {
+				return false
+			}
+			x.conds = append(x.conds, f)
+			x.taken = append(x.taken, pc.Taken)
+		}
+		f, ok := compileSmall(tb.Of(p.Result(0)), sym)
+		if !ok {
+			return false
+		}
+		x.res = f
+		cps = append(cps, x)
+	}
+	for r := int64(0); r <= 0x10FFFF; r++ {
+		want := r
+		if r >= 'a' && r <= 'z' {
+			want = r - 32
+		}
+		hit := 0
+		for _, x := range cps {
+			on := true
+			for i, f := range x.conds {
+				if (f(r) != 0) != x.taken[i] {
+					on = false
+					break
+				}
+			}
+			if !on {
+				continue
+			}
+			hit++
+			if x.res(r) != want {
+				return false
+			}
+		}
+		if hit != 1 {
+			return false
+		}
+	}
+	return true
+}
+
+// compileSmall turns an integer/boolean term over one unknown (printed as sym) into a function; only
+// constants, +, -, comparisons and rune-preserving conversions are admitted.
+func compileSmall(t *Term, sym string) (func(int64) int64, bool) {
+	if t.String() == sym {
+		return func(v int64) int64 { return v }, true
+	}
+	switch {
+	case t.IsConst():
+		var n int64
+		if _, err := fmt.Sscanf(t.Sym, "%d", &n); err != nil || fmt.Sprint(n) != t.Sym {
+			return nil, false
+		}
+		return func(int64) int64 { return n }, true
+	case t.Op == "conv" && len(t.Args) == 1 && (t.Sym == "rune" || t.Sym == "int32" || t.Sym == "int" || t.Sym == "int64"):
+		return compileSmall(t.Args[0], sym)
+	case t.Op == "bin" && len(t.Args) == 2:
+		a, ok1 := compileSmall(t.Args[0], sym)
+		b, ok2 := compileSmall(t.Args[1], sym)
+		if !ok1 || !ok2 {
+			return nil, false
+		}
+		bb := func(x bool) int64 {
+			if x {
+				return 1
+			}
+			return 0
+		}
+		switch t.Sym {
+		case "+":
+			return func(v int64) int64 { return a(v) + b(v) }, true
+		case "-":
+			return func(v int64) int64 { return a(v) - b(v) }, true
+		case "==":
+			return func(v int64) int64 { return bb(a(v) == b(v)) }, true
+		case "!=":
+			return func(v int64) int64 { return bb(a(v) != b(v)) }, true
+		case "<":
+			return func(v int64) int64 { return bb(a(v) < b(v)) }, true
+		case "<=":
+			return func(v int64) int64 { return bb(a(v) <= b(v)) }, true
+		case ">":
+			return func(v int64) int64 { return bb(a(v) > b(v)) }, true
+		case ">=":
+			return func(v int64) int64 { return bb(a(v) >= b(v)) }, true
+		}
+	}
+	return nil, false
+}
+
 func runC07(c *Check, w *World) {
 	tb := NewTB(w)
 	ef := NewEffects(tb)
@@ -198,11 +344,15 @@ func runC07(c *Check, w *World) {
 		} else {
 			call := r0.Args[0]
 			c.Decide(call.Args[0].String() == "gval(base32.StdEncoding)", "R07.1", fn, "decoder-identity", "the strict, padded standard alphabet decoder (base32.StdEncoding) is used", "the decoder is "+clip(call.Args[0].String(), 160)+", not base32.StdEncoding (a different alphabet or padding mode accepts other text / other bytes)", pos)
-			up, tr, pd, why := analyseDecodeArg(call.Args[1], param)
+			tb.notes = map[string]bool{}
+			up, tr, pd, why := analyseDecodeArg(tb, call.Args[1], param)
 			if why != "" {
 				c.Unk("R07.1", fn, "normalisation", why, pos)
 			} else {
-				c.Decide(up, "R07.1", fn, "upper-case", "the whole text is upper-cased (strings.ToUpper) before decoding", "the text is not upper-cased: lower- and mixed-case spellings are rejected", pos)
+				c.Decide(up, "R07.1", fn, "upper-case", "the whole text is upper-cased before decoding", "the text is not upper-cased: lower- and mixed-case spellings are rejected", pos)
+				if up {
+					c.Decide(!tb.notes["unicode-upper"], "R07.1", fn, "ascii-case-folding", "only the ASCII letters a-z are folded (the folding function maps every other code point to itself, checked over all 0..0x10FFFF)", "strings.ToUpper folds non-ASCII letters onto the alphabet ('ſ' U+017F → 'S', 'ı' U+0131 → 'I'): text outside the base32 alphabet such as \"ſſſſſſſſ\" is accepted and decoded as \"SSSSSSSS\"", pos)
+				}
 				c.Decide(tr, "R07.1", fn, "trim-space", "surrounding white space is trimmed (strings.TrimSpace)", "surrounding white space is not trimmed", pos)
 				c.Decide(pd, "R07.1", fn, "re-padding", "the text is re-padded on the right to a multiple of 8 from its trimmed length", "unpadded spellings are not re-padded to a multiple of 8", pos)
 			}
@@ -248,6 +398,8 @@ func runC07(c *Check, w *World) {
 	}
 	c.Count("keyed_hmac_paths", nKeyed)
 	ruleHistoryIndependence(c, w, tb, ef, "R07.H", dec)
+	// the REST entry points hand the secret through (TrimSpace at most) and only test it for presence
+	checkRESTEndpoints(c, w, tb, ef, "R07.REST", "/totp/generate", "/totp/validate", "/hotp/generate", "/hotp/validate", "/ocra/generate", "/ocra/validate", "/otp/url")
 	c.Floor("R07.1", 4)
 	c.Floor("R07.2", 6)
 	c.Floor("R07.3", 6)
